@@ -2,5 +2,5 @@ SPECIFICATION Spec
 CONSTANTS Devs = {}
           Cases <- MCSel
           Family = "MHand"
-INVARIANTS TypeOK VisitedSafe VisitedExact DepthShortest FetchedExact LocalExact HandlerCidRight
+INVARIANTS TypeOK VisitedSafe VisitedExact DepthShortest FetchedExact LocalExact HandlerCidRight HandlerOwnFailure
            HandlerCallsRight ProvidedExact ResultRight NoHandlerCrash
